@@ -14,7 +14,7 @@ PROPERTY = "C16"
 RULE = ("reference dataset R (2-3 dims) and 1-2 source datasets S (1-3 dims) linked pixel-to-pixel by S.pix_j = a_j * R.pix_pi(j) + b_j "
         "(injective axis map pi, a in {1,2,0.5,-1}, b = k+0.3); bounds per R dimension scalar or (lo, hi, n), partly/wholly outside; "
         "value and mask requests; broadcast on/off; sequences of 2-8 requests sharing one cache_id that vary bounds (often only a scalar "
-        "bound), attribute, selection and source dataset, plus R read in its own frame. Oracle: own nearest-pixel resampler; samples "
+        "bound), attribute, selection and source dataset, plus R read in its own frame; in half of the sequences the cached requests pass one bounds list edited in place. Oracle: own nearest-pixel resampler; samples "
         "whose mapped position is within 1e-9 of a half-integer are not compared. Non-trivial = partly-outside bounds with a permuted or "
         "scaled axis map, or a sequence whose consecutive requests differ only in a scalar bound / attribute / selection / dataset; "
         "distinct by spec hash.")
@@ -124,10 +124,14 @@ def oracle(spec, req, R, sources):
     return out[sl], sure[sl]
 
 
-def run_request(req, R, sources, cache_id):
+def run_request(req, R, sources, cache_id, shared=None):
     from glue.core.fixed_resolution_buffer import compute_fixed_resolution_buffer
     data = R if req["src"] < 0 else sources[req["src"]]
     bounds = [tuple(b) if isinstance(b, list) else b for b in req["bounds"]]
+    if shared is not None:
+        # a caller that keeps one list of bounds and edits it in place between requests (stepping through a cube, panning)
+        shared[:] = bounds
+        bounds = shared
     kw = {}
     if req["kind"] == "values":
         kw["target_cid"] = data.id[req["att"]]
@@ -156,6 +160,7 @@ def fn_sequence(spec, rec):
     nontriv = False
     prev = None
     cache_name = "shared-id"
+    shared_bounds = [] if spec.get("reuse_bounds_list") else None
     relinked = False
     for k, req in enumerate(spec["requests"]):
         rl = spec.get("relink")
@@ -202,7 +207,7 @@ def fn_sequence(spec, rec):
                 tag += "/after-relink"
             detail = {"request": k, "mode": tag, "req": {x: y for x, y in req.items() if x != "_state"}}
             try:
-                got = run_request(req, R, sources, cache_id)
+                got = run_request(req, R, sources, cache_id, shared_bounds if cache_id is not None else None)
             except IncompatibleDataException:
                 if isinstance(exp, str):
                     continue
@@ -403,7 +408,8 @@ def cases(draw):
     if nreq >= 2 and draw(st.integers(0, 2)) == 0:
         relink = {"after": draw(st.integers(1, nreq - 1)), "shift": [float(draw(st.sampled_from([1, 2, -1]))), float(draw(st.sampled_from([0, 1, -2]))), 1.0],
                   "how": draw(st.integers(0, 2))}
-    return {"rshape": rshape, "rcoords": rcoords, "sources": sources, "requests": reqs, "also_uncached": draw(st.booleans()), "relink": relink}
+    return {"rshape": rshape, "rcoords": rcoords, "sources": sources, "requests": reqs, "also_uncached": draw(st.booleans()), "relink": relink,
+            "reuse_bounds_list": draw(st.booleans())}
 
 
 def checks(tier):
